@@ -446,12 +446,14 @@ def extract_classifier(kinds):
         if "FLAGS" in flags and flags["FLAGS"] != "none":
             tags += ["flag=" + f for f in flags["FLAGS"].split(",")]
         info = {"tags": tags, "nontrivial": kind in kinds and impl.split()[0] in ("ok", "some")}
-        if kind == "mecab":
-            fl = flags.get("FLAGS", "")
-            if impl.startswith("ok") and any(x in fl for x in ("GAP", "ZERO_NOT_BOS", "BADSEP", "NOZERO")):
+        if kind == "mecab" and "mecab" in kinds:
+            # decider: the model returns err exactly for a gap among the defined ids, a malformed id line, id 0 not
+            # BOS/EOS or undefined, invalid UTF-8 / unparsable feature.def (theorems gap_rejected, malformed_rejected,
+            # zero_not_bos_rejected, f12_fixed_rejects)
+            if impl.startswith("ok") and mobs.startswith("err"):
                 info["prop_fail"] = "mecab-malformed-accepted"
-                info["why"] = "generate_bigram_info accepted an id table with a gap / malformed line / id 0 not BOS/EOS: " + fl
-            if impl.split()[0] == "panic":
+                info["why"] = "generate_bigram_info accepted an input that must be reported as an error (gap / malformed id line / id 0)"
+            if impl.split()[0] == "panic" and not mobs.startswith("panic"):
                 info["prop_fail"] = "mecab-panic"
                 info["why"] = "generate_bigram_info panicked"
         return info
@@ -461,7 +463,8 @@ def extract_classifier(kinds):
 def extract_streams(kinds, nq, nt):
     def streams(tier, seed):
         n = nq if tier == "quick" else nt
-        return [(["extract", str(seed), str(n)], extract_classifier(kinds))]
+        extra = ["mecab"] if kinds == ("mecab",) else []
+        return [(["extract", str(seed), str(n)] + extra, extract_classifier(kinds))]
     return streams
 
 
